@@ -764,8 +764,10 @@ Proof.
   { destruct (negb (is_host_set (erase src)) && is_host_set (erase base)); apply Copy. }
   destruct domain_root.
   - destruct (copy_path_m_TR muri_empty src s) as [M2 T2]. destruct (copy_path_m muri_empty src s) as [[[|] d2] s2]; cbn [negb]; cbv beta iota; [|leaf].
-    destruct (fix_ambiguity_m_TR (set_m_abs true d2) s2) as [M4 T4].
-    destruct (fix_ambiguity_m (set_m_abs true d2) s2) as [[[|] d4] s4]; cbn [negb]; cbv beta iota; leaf.
+    destruct (fix_empty_trail_m_TR (set_m_abs true d2) s2) as [M3 T3].
+    destruct (fix_empty_trail_m (set_m_abs true d2) s2) as [d3 s3].
+    destruct (fix_ambiguity_m_TR d3 s3) as [M4 T4].
+    destruct (fix_ambiguity_m d3 s3) as [[[|] d4] s4]; cbn [negb]; cbv beta iota; leaf.
   - destruct (skip_common (pathSegs (erase src)) (pathSegs (erase base))) as [s' b'].
     match goal with |- context [append_segs [] ?tt s] => destruct (append_segs_TR tt [] s) as [M T]; destruct (append_segs [] tt s) as [[[|] segs] s1] end; leaf.
 Qed.
